@@ -25,8 +25,8 @@ WHILE_LET = 'while-let written as `loop { let Some(x) = e else { break }; .. }` 
 U5 = 'TRUSTED std contract through a wrapper: Verus cannot attach a specification to this std call (provided trait method / generic FromIterator / closure with a tuple pattern); the call is moved verbatim into an external_body function whose `ensures` is the std contract'
 
 INV = '''
-    n == nfa, sub_wf(n), n_off(n) == 0, tt == n.pattern.token_type,
-    reps_ok(n, reps), reps.len() <= n_len(n), map_ok(n, state_map@, reps),
+    n == nfa, g == g_nfa(n), gr_wf(g), sub_wf(n), n_off(n) == 0, tt == n.pattern.token_type,
+    reps_ok(g, reps), reps.len() <= n_len(n), g.bound == n_len(n), map_ok(g, state_map@, reps),
 '''
 
 from_nfa = Fn(F_DFA, 'From<Nfa> for CompiledDfa', 'from', ret='r', rename='from__nfa', impl_as='CompiledDfa', qual_as='CompiledDfa', props=P,
@@ -35,12 +35,14 @@ from_nfa = Fn(F_DFA, 'From<Nfa> for CompiledDfa', 'from', ret='r', rename='from_
 requires sub_wf(nfa), n_off(nfa) == 0
 ensures
     // the automaton handed to the minimizer is the epsilon-elimination automaton of the NFA
-    exists|d0: CompiledDfa, reps: Seq<StateID>| elim_ok(nfa, d0, reps) && r == spec_minimize(d0),
+    exists|d0: CompiledDfa, reps: Seq<StateID>| elim_ok(g_nfa(nfa), d0, reps) && d0.terminal_ids@ == seq![TerminalID(nfa.pattern.token_type as u32)] && r == spec_minimize(d0),
 ''',
     edits=[
         Ins('body_start', None, '''
 broadcast use axiom_fx_valid, axiom_set_key_model, axiom_triple_key_model, axiom_stateid_cmp;
 let ghost n = nfa;
+let ghost g = g_nfa(nfa);
+proof { lemma_g_nfa_wf(n); }
 let ghost tt = nfa.pattern.token_type;
 let ghost mut reps: Seq<StateID> = seq![nfa.start_state];
 let ghost mut p: int = 0;
@@ -49,29 +51,29 @@ let ghost mut p: int = 0;
         Replace('U5', 'state_map.iter().find(|(_, v)| **v == current_state).unwrap().0.clone()', 'verif_key_of(&state_map, current_state)', why=U5),
         Ins('after_stmt', 'state_map.insert(epsilon_closure.clone(), current_state);', '''
 proof {
-    assert(key_is(n, epsilon_closure@, n.start_state.0 as int));
-    assert(reps_ok(n, reps)) by { reveal(reps_distinct); }
+    assert(key_is(g, epsilon_closure@, n.start_state.0 as int));
+    assert(reps_ok(g, reps)) by { reveal(reps_distinct); }
     let k0 = choose|k0: BTreeSet<StateID>| state_map@ == Map::<BTreeSet<StateID>, StateSetID>::empty().insert(k0, current_state) && k0@ == epsilon_closure@;
-    assert(map_ok(n, state_map@, reps)) by {
+    assert(map_ok(g, state_map@, reps)) by {
         assert(state_map@.contains_key(k0) && state_map@[k0].0 == 0);
         assert(has_key_for(state_map@, 0));
     }
-    lemma_reps_nodup(n, reps);
+    lemma_reps_nodup(g, reps);
 }
 '''),
         Ins('after_stmt', 'queue.push_back(current_state);', '''
-proof { assert(queue_ok(queue@, 0, 1)); lemma_worklist_init(n, reps); assert(transitions@ =~= Set::<Edge>::empty()); assert(accepting_states@ =~= Seq::<(StateSetID, usize)>::empty()); }
+proof { assert(queue_ok(queue@, 0, 1)); lemma_worklist_init(g, reps); assert(transitions@ =~= Set::<Edge>::empty()); assert(accepting_states@ =~= Seq::<(StateSetID, usize)>::empty()); }
 ''', occ=1),
         Replace('E1', 'while let Some(current_state) = queue.pop_front() {', '''loop
     //@label from_nfa.worklist
     invariant
 ''' + INV + '''
         0 <= p <= reps.len(), queue_ok(queue@, p, reps.len() as int),
-        trans_sound(n, transitions@, reps, p), trans_complete(n, transitions@, reps, p), acc_ok(n, accepting_states@, transitions@, reps),
+        trans_sound(g, transitions@, reps, p), trans_complete(g, transitions@, reps, p), acc_ok(g, accepting_states@, transitions@, reps),
     ensures
 ''' + INV + '''
         p == reps.len(),
-        trans_sound(n, transitions@, reps, p), trans_complete(n, transitions@, reps, p), acc_ok(n, accepting_states@, transitions@, reps),
+        trans_sound(g, transitions@, reps, p), trans_complete(g, transitions@, reps, p), acc_ok(g, accepting_states@, transitions@, reps),
     decreases n_len(n) + 1 - reps.len(), queue@.len()
 {
     let ghost q_in = queue@;
@@ -84,7 +86,7 @@ proof { assert(queue_ok(queue@, 0, 1)); lemma_worklist_init(n, reps); assert(tra
         assert(queue_ok(queue@, c + 1, reps.len() as int)) by {
             assert forall|i: int| 0 <= i < queue@.len() implies (#[trigger] queue@[i]).0 == c + 1 + i by { assert(queue@[i] == q_in[i + 1]); }
         }
-        lemma_ts_weaken(n, transitions@, reps, c, c + 1);
+        lemma_ts_weaken(g, transitions@, reps, c, c + 1);
         assert(has_key_for(state_map@, c));
         let kc = choose|kc: BTreeSet<StateID>| #[trigger] state_map@.contains_key(kc) && state_map@[kc].0 == c;
         assert(state_map@[kc] == current_state);
@@ -92,8 +94,8 @@ proof { assert(queue_ok(queue@, 0, 1)); lemma_worklist_init(n, reps); assert(tra
         Ins('after_stmt', 'let epsilon_closure = state_map$_;', '''
 proof {
     let k = choose|k: BTreeSet<StateID>| state_map@.contains_key(k) && state_map@[k] == current_state && epsilon_closure@ == k@;
-    assert(key_is(n, k@, reps[c].0 as int));
-    assert(key_is(n, epsilon_closure@, reps[c].0 as int));
+    assert(key_is(g, k@, reps[c].0 as int));
+    assert(key_is(g, epsilon_closure@, reps[c].0 as int));
 }
 ''', label='from_nfa.key_of'),
         Replace('E6+U5', 'let target_states = nfa.get_match_transitions(epsilon_closure.iter().cloned());', '''
@@ -121,7 +123,7 @@ let target_states = nfa.get_match_transitions(__ci);
 let ghost ts = target_states@;
 proof {
     lemma_mt_fires(n, ss, epsilon_closure@, reps[c].0 as int);
-    assert forall|cc: CharClassID, t: StateID| #[trigger] ts.contains((cc, t)) <==> fires(n, reps[c].0 as int, cc, t) by {
+    assert forall|cc: CharClassID, t: StateID| #[trigger] ts.contains((cc, t)) <==> fires(g, reps[c].0 as int, cc, t) by {
         assert(ts.contains((cc, t)) <==> mt_from(n, ss, cc, t));
     }
 }
@@ -131,12 +133,12 @@ invariant
     __it1.obeys_prophetic_iter_laws(), __it1.decrease() is Some,
     __it1.remaining().len() <= ts.len(),
     forall|q: int| 0 <= q < __it1.remaining().len() ==> #[trigger] __it1.remaining()[q] == ts[ts.len() - __it1.remaining().len() + q],
-    forall|cc: CharClassID, t: StateID| #[trigger] ts.contains((cc, t)) <==> fires(n, reps[c].0 as int, cc, t),
+    forall|cc: CharClassID, t: StateID| #[trigger] ts.contains((cc, t)) <==> fires(g, reps[c].0 as int, cc, t),
     old_state_id.0 == c, 0 <= c < reps.len(), c == p, reps.len() >= reps_head.len(), queue@.len() == reps.len() - c - 1,
 ''' + INV + '''
     queue_ok(queue@, c + 1, reps.len() as int),
-    trans_sound(n, transitions@, reps, c + 1), trans_complete(n, transitions@, reps, c), acc_ok(n, accepting_states@, transitions@, reps),
-    forall|kk: int| 0 <= kk < ts.len() - __it1.remaining().len() ==> edge_present(n, transitions@, reps, c, (#[trigger] ts[kk]).0, ts[kk].1),
+    trans_sound(g, transitions@, reps, c + 1), trans_complete(g, transitions@, reps, c), acc_ok(g, accepting_states@, transitions@, reps),
+    forall|kk: int| 0 <= kk < ts.len() - __it1.remaining().len() ==> edge_present(g, transitions@, reps, c, (#[trigger] ts[kk]).0, ts[kk].1),
 ensures
     __it1.remaining().len() == 0,
 decreases __it1.decrease()->0
@@ -149,28 +151,28 @@ let ghost acc_in = accepting_states@;
 proof {
     assert((cc, target_state) == ts[m0]);
     assert(ts.contains(ts[m0]));
-    assert(fires(n, reps[c].0 as int, cc, target_state));
-    lemma_fires_target(n, reps[c].0 as int, cc, target_state);
+    assert(fires(g, reps[c].0 as int, cc, target_state));
+    lemma_fires_target(g, reps[c].0 as int, cc, target_state);
 }
 '''),
         Ins('after_stmt', 'let epsilon_closure = BTreeSet::from_iter(nfa.epsilon_closure(target_state));', '''
-proof { assert(key_is(n, epsilon_closure@, target_state.0 as int)); }
+proof { assert(key_is(g, epsilon_closure@, target_state.0 as int)); }
 '''),
         Replace('E14', '*state_map.entry($k).or_insert_with(|| { $body })', '''{
     let __k = $k;
-    proof { assert(__k@ == epsilon_closure@); assert(key_is(n, __k@, target_state.0 as int)); }
+    proof { assert(__k@ == epsilon_closure@); assert(key_is(g, __k@, target_state.0 as int)); }
     match state_map.get(&__k) {
         Some(__v) => {
-            proof { lemma_step_found(n, state_map@, reps, __k, target_state); }
+            proof { lemma_step_found(g, state_map@, reps, __k, target_state); }
             *__v
         }
         None => {
             let ghost map_in = state_map@;
             proof {
                 assert(!map_in.contains_key(__k));
-                lemma_reps_nodup(n, reps);
-                lemma_step_fresh(n, map_in, reps, __k, target_state);
-                lemma_push_mono(n, transitions@, accepting_states@, reps, target_state, c + 1, c);
+                lemma_reps_nodup(g, reps);
+                lemma_step_fresh(g, map_in, reps, __k, target_state);
+                lemma_push_mono(g, transitions@, accepting_states@, reps, target_state, c + 1, c);
                 assert(new_state_id_candidate == reps.len());
             }
             let ghost q0 = queue@;
@@ -179,14 +181,14 @@ proof { assert(key_is(n, epsilon_closure@, target_state.0 as int)); }
             proof {
                 assert(queue@ == q0.push(__v));
                 assert(queue_ok(queue@, c + 1, reps.len() as int + 1));
-                assert forall|kk: int| 0 <= kk < m0 implies edge_present(n, transitions@, reps.push(target_state), c, (#[trigger] ts[kk]).0, ts[kk].1) by {
-                    assert(edge_present(n, transitions@, reps, c, ts[kk].0, ts[kk].1));
+                assert forall|kk: int| 0 <= kk < m0 implies edge_present(g, transitions@, reps.push(target_state), c, (#[trigger] ts[kk]).0, ts[kk].1) by {
+                    assert(edge_present(g, transitions@, reps, c, ts[kk].0, ts[kk].1));
                 }
-                assert forall|cc: CharClassID, t: StateID| #[trigger] ts.contains((cc, t)) <==> fires(n, reps.push(target_state)[c].0 as int, cc, t) by {
+                assert forall|cc: CharClassID, t: StateID| #[trigger] ts.contains((cc, t)) <==> fires(g, reps.push(target_state)[c].0 as int, cc, t) by {
                     assert(reps.push(target_state)[c] == reps[c]);
                 }
                 reps = reps.push(target_state);
-                lemma_reps_nodup(n, reps);
+                lemma_reps_nodup(g, reps);
             }
             __v
         }
@@ -195,11 +197,12 @@ proof { assert(key_is(n, epsilon_closure@, target_state.0 as int)); }
         Ins('after_stmt', 'let new_state_id = $_;', '''
 proof {
     assert(new_state_id.0 < reps.len());
-    assert(same_closure(n, target_state.0 as int, reps[new_state_id.0 as int].0 as int));
-    assert(epsilon_closure@.contains(nfa.end_state) <==> eps_reach(n, reps[new_state_id.0 as int].0 as int, n.end_state.0 as int)) by {
+    assert(same_closure(g, target_state.0 as int, reps[new_state_id.0 as int].0 as int));
+    lemma_acc_same(g, target_state.0 as int, reps[new_state_id.0 as int].0 as int);
+    assert(epsilon_closure@.contains(nfa.end_state) <==> (g.acc)(reps[new_state_id.0 as int].0 as int) is Some) by {
         assert(epsilon_closure@.contains(nfa.end_state) <==> eps_reach(n, target_state.0 as int, n.end_state.0 as int));
-        lemma_same_closure_reach(n, target_state.0 as int, reps[new_state_id.0 as int].0 as int, n.end_state.0 as int);
     }
+    assert((g.acc)(reps[new_state_id.0 as int].0 as int) is Some ==> (g.acc)(reps[new_state_id.0 as int].0 as int) == Some(tt));
     assert(reps[c] == reps_in[c]);
 }
 let ghost acc_mid = accepting_states@;
@@ -209,18 +212,19 @@ proof {
     let e0 = (old_state_id, cc, new_state_id);
     assert(old_state_id == StateSetID(c as u32));
     let t_mid = t_in;
-    assert(accepting_states@ == (if eps_reach(n, reps[new_state_id.0 as int].0 as int, n.end_state.0 as int) && !acc_mid.contains((new_state_id, tt)) { acc_mid.push((new_state_id, tt)) } else { acc_mid }));
-    lemma_acc_step(n, acc_mid, accepting_states@, t_mid, reps, e0);
-    lemma_insert_edge(n, t_mid, reps, c, cc, target_state, new_state_id, c);
+    let a0 = (g.acc)(reps[new_state_id.0 as int].0 as int);
+    assert(accepting_states@ == (if a0 is Some && !acc_mid.contains((new_state_id, a0->0)) { acc_mid.push((new_state_id, a0->0)) } else { acc_mid }));
+    lemma_acc_step(g, acc_mid, accepting_states@, t_mid, reps, e0);
+    lemma_insert_edge(g, t_mid, reps, c, cc, target_state, new_state_id, c);
     assert(transitions@ == t_mid.insert(e0));
-    assert forall|kk: int| 0 <= kk < m0 + 1 implies edge_present(n, transitions@, reps, c, (#[trigger] ts[kk]).0, ts[kk].1) by {
-        if kk < m0 { assert(edge_present(n, t_mid, reps, c, ts[kk].0, ts[kk].1)); }
+    assert forall|kk: int| 0 <= kk < m0 + 1 implies edge_present(g, transitions@, reps, c, (#[trigger] ts[kk]).0, ts[kk].1) by {
+        if kk < m0 { assert(edge_present(g, t_mid, reps, c, ts[kk].0, ts[kk].1)); }
     }
 }
 ''', label='from_nfa.insert_edge'),
         Ins('block_end', 'while let Some(current_state) = queue.pop_front() {', '''
 proof {
-    lemma_complete_step(n, transitions@, reps, c, ts);
+    lemma_complete_step(g, transitions@, reps, c, ts);
     p = p + 1;
 }
 '''),
@@ -263,7 +267,7 @@ invariant
     edges.no_duplicates(), forall|e: Edge| #[trigger] edges.contains(e) <==> tset.contains(e),
     __it2.remaining().len() <= edges.len(),
     forall|q: int| 0 <= q < __it2.remaining().len() ==> #[trigger] __it2.remaining()[q] == edges[edges.len() - __it2.remaining().len() + q],
-    states@.len() == reps.len(), trans_sound(n, tset, reps, reps.len() as int),
+    states@.len() == reps.len(), trans_sound(g, tset, reps, reps.len() as int),
     forall|f: int, cc: CharClassID, to: StateSetID| 0 <= f < reps.len() ==>
         (#[trigger] states@[f].transitions@.contains((cc, to)) <==> exists|ix: int| 0 <= ix < edges.len() - __it2.remaining().len() && #[trigger] edges[ix] == (StateSetID(f as u32), cc, to)),
     forall|f: int| 0 <= f < reps.len() ==> (#[trigger] states@[f]).transitions@.no_duplicates(),
@@ -279,7 +283,7 @@ proof {
     assert((from, cc, to) == edges[d0]);
     assert(edges.contains(edges[d0]));
     assert(tset.contains((from, cc, to)));
-    lemma_ts_use(n, tset, reps, reps.len() as int, (from, cc, to));
+    lemma_ts_use(g, tset, reps, reps.len() as int, (from, cc, to));
     assert(from.0 < reps.len());
 }
 '''),
@@ -313,10 +317,9 @@ proof {
 }
 '''),
         Ins('after_stmt', 'let mut end_states = $_;', '''
-let ghost ttid = TerminalID(tt as u32);
 proof {
     assert(end_states@.len() == reps.len());
-    assert forall|i: int| 0 <= i < reps.len() implies #[trigger] end_states@[i] == (false, TerminalID(0)) by { axiom_cloned_end_state((false, TerminalID(0)), end_states@[i]); }
+    assert forall|i: int| 0 <= i < reps.len() implies #[trigger] end_states@[i] == acc_mark(acc, 0, i) by { axiom_cloned_end_state((false, TerminalID(0)), end_states@[i]); }
 }
 ''', label='from_nfa.transitions_done'),
         ForLoop('for (state, term) in accepting_states {', it='__it3', label='from_nfa.mark_accepting', spec='''
@@ -324,29 +327,21 @@ invariant
     __it3.obeys_prophetic_iter_laws(), __it3.decrease() is Some,
     __it3.remaining().len() <= acc.len(),
     forall|q: int| 0 <= q < __it3.remaining().len() ==> #[trigger] __it3.remaining()[q] == acc[acc.len() - __it3.remaining().len() + q],
-    end_states@.len() == reps.len(), acc_ok(n, acc, tset, reps),
-    forall|i: int| 0 <= i < reps.len() ==> #[trigger] end_states@[i] ==
-        (if exists|ix: int| 0 <= ix < acc.len() - __it3.remaining().len() && (#[trigger] acc[ix]).0.0 == i { (true, ttid) } else { (false, TerminalID(0)) }),
+    end_states@.len() == reps.len(), acc_ok(g, acc, tset, reps),
+    forall|i: int| 0 <= i < reps.len() ==> #[trigger] end_states@[i] == acc_mark(acc, acc.len() - __it3.remaining().len(), i),
 ensures __it3.remaining().len() == 0,
 decreases __it3.decrease()->0
 '''),
         Ins('after', 'for (state, term) in accepting_states {', '''
 let ghost a0 = acc.len() - __it3.remaining().len() - 1;
 let ghost es_in = end_states@;
-proof { assert((state, term) == acc[a0]); lemma_acc_use(n, acc, tset, reps, a0); assert(state.0 < reps.len() && term == tt); }
+proof { assert((state, term) == acc[a0]); lemma_acc_use(g, acc, tset, reps, a0); assert(state.0 < reps.len()); }
 '''),
         Ins('block_end', 'for (state, term) in accepting_states {', '''
 proof {
-    assert(end_states@ == es_in.update(state.0 as int, (true, ttid)));
-    assert forall|i: int| 0 <= i < reps.len() implies #[trigger] end_states@[i] ==
-        (if exists|ix: int| 0 <= ix < a0 + 1 && (#[trigger] acc[ix]).0.0 == i { (true, ttid) } else { (false, TerminalID(0)) }) by {
-        if i == state.0 { assert(acc[a0].0.0 == i); }
-        else {
-            if exists|ix: int| 0 <= ix < a0 + 1 && (#[trigger] acc[ix]).0.0 == i {
-                let ix = choose|ix: int| 0 <= ix < a0 + 1 && (#[trigger] acc[ix]).0.0 == i;
-                assert(ix < a0);
-            }
-        }
+    assert(end_states@ == es_in.update(state.0 as int, (true, TerminalID(term as u32))));
+    assert forall|i: int| 0 <= i < reps.len() implies #[trigger] end_states@[i] == acc_mark(acc, a0 + 1, i) by {
+        lemma_acc_mark_step(acc, a0, i);
     }
 }
 '''),
@@ -356,7 +351,8 @@ proof {
     assert(__d0.terminal_ids@.len() == 1);
     assert(__d0.terminal_ids@[0] == TerminalID(tt as u32));
     assert(__d0.terminal_ids@ =~= seq![TerminalID(tt as u32)]);
-    lemma_elim_final(n, __d0, reps, tset, acc);
+    lemma_reps_nodup(g, reps);
+    lemma_elim_final(g, __d0, reps, tset, acc);
 }
 Minimizer::minimize(__d0)
 }''', why='argument let-bound so that ghost code can name the automaton handed to the minimizer'),
@@ -421,6 +417,8 @@ pub assume_specification<T: PartialEq>[ <[T]>::contains ](s: &[T], x: &T) -> (r:
         RawFile(os.path.join(SUBDIR, 'sub_spec.rs'), 'sub_spec.rs'),
         RawFile(os.path.join(SUBDIR, 'mp_spec.rs'), 'mp_spec.rs'),
         RawFile('elim_spec.rs'),
+        RawFile('elim_gen.rs'),
+        RawFile('elim_nfa.rs'),
         C(sub.epsilon_closure), C(sub.get_match_transitions),
         Fn(F_PAT, 'Pattern', 'pattern', ret='r', props=P, spec='ensures r@ == self.pattern@'),
         Fn(F_PAT, 'Pattern', 'terminal_id', ret='r', props=P, spec='ensures r == self.token_type'),
